@@ -372,6 +372,13 @@ func (h *Handshaker) ReplayBlocks(
 		}
 	}
 
+	// The height of the block that follows the state: the first block of the chain has the
+	// genesis InitialHeight, which need not be 1.
+	stateNextHeight := stateBlockHeight + 1
+	if stateBlockHeight == 0 {
+		stateNextHeight = state.InitialHeight
+	}
+
 	// First handle edge cases and constraints on the storeBlockHeight and storeBlockBase.
 	switch {
 	case storeBlockHeight == 0:
@@ -394,9 +401,9 @@ func (h *Handshaker) ReplayBlocks(
 		// the state should never be ahead of the store (this is under tendermint's control)
 		panic(fmt.Sprintf("StateBlockHeight (%d) > StoreBlockHeight (%d)", stateBlockHeight, storeBlockHeight))
 
-	case storeBlockHeight > stateBlockHeight+1:
-		// store should be at most one ahead of the state (this is under tendermint's control)
-		panic(fmt.Sprintf("StoreBlockHeight (%d) > StateBlockHeight + 1 (%d)", storeBlockHeight, stateBlockHeight+1))
+	case storeBlockHeight > stateNextHeight:
+		// store should be at most one block ahead of the state (this is under tendermint's control)
+		panic(fmt.Sprintf("StoreBlockHeight (%d) > StateBlockHeight + 1 (%d)", storeBlockHeight, stateNextHeight))
 	}
 
 	var err error
@@ -415,7 +422,7 @@ func (h *Handshaker) ReplayBlocks(
 			return appHash, nil
 		}
 
-	} else if storeBlockHeight == stateBlockHeight+1 {
+	} else if storeBlockHeight == stateNextHeight {
 		// We saved the block in the store but haven't updated the state,
 		// so we'll need to replay a block using the WAL.
 		switch {
